@@ -48,3 +48,11 @@ Example C05_nonvacuous :
   (exists err r, ldec t (firstn 11 e) = Err err r) /\
   (exists err r, ldec t (firstn 6 e) = Err err r).
 Proof. vm_compute. repeat split; eexists; eexists; reflexivity. Qed.
+
+(* readers that cannot look ahead (Ensure always succeeds: the shape of StreamReader and
+   FdReader) reject every strict prefix as well — the missing bytes are noticed when read *)
+Theorem C05_truncation_lazy_ensure : forall t e v k,
+  ldec t e = Ok v [] -> (k < length e)%nat ->
+  forall v' r, dec t lazy_ops (firstn k e) <> Ok v' r.
+Proof. exact truncation_rejected_lazy. Qed.
+Print Assumptions C05_truncation_lazy_ensure.
